@@ -257,21 +257,30 @@ def _worker(args):
     for i in range(n):
         cl, files = gen_cmdline(r)
         rundir = os.path.join(wd, 'c17-%d-%d' % (os.getpid(), i))
-        o = drv.run(drvb, rundir, cl, files)
-        # outputs that overwrite an input file (e.g. -o a.c): read back
-        o.overwritten = {}
-        o.destroyed = []
-        for nm in files:
-            p = os.path.join(rundir, nm)
-            if os.path.exists(p):
-                d = open(p, 'rb').read()
-                if d != files[nm]:
-                    o.overwritten[nm] = d
-            else:
-                o.destroyed.append(nm)
-        probs, kind = judge(drvb, cl, files, o)
         import shutil
-        shutil.rmtree(rundir, ignore_errors=True)
+        retried = False
+        for attempt in (0, 1):
+            o = drv.run(drvb, rundir, cl, files)
+            # outputs that overwrite an input file (e.g. -o a.c): read back
+            o.overwritten = {}
+            o.destroyed = []
+            for nm in files:
+                p = os.path.join(rundir, nm)
+                if os.path.exists(p):
+                    d = open(p, 'rb').read()
+                    if d != files[nm]:
+                        o.overwritten[nm] = d
+                else:
+                    o.destroyed.append(nm)
+            probs, kind = judge(drvb, cl, files, o)
+            shutil.rmtree(rundir, ignore_errors=True)
+            if not probs:
+                break
+            # what the driver does with a command line is deterministic: a report has to show twice.  The driver keeps its temporary objects in
+            # the shared /tmp, where another job on the machine can remove them between two stages.
+            retried = True
+        if retried and not probs:
+            kind = 'run(second attempt)'
         try:
             m = drv.model(drvb['cfg'], cl)
             shape = (m['last'], tuple(sorted(set(x['type'] for x in m['inputs']))), len(m['inputs']))
